@@ -26,6 +26,9 @@ def has_obj(v):
     return False
 
 
+_BASE = [NS]     # the expansion relative ids / keys of POSTED entities get (an hbatch with its own context changes it for that op)
+
+
 def expand(s, ns=None):
     """CURIE or relative id -> full URI"""
     if s.startswith("http://") or s.startswith("https://"):
@@ -33,7 +36,7 @@ def expand(s, ns=None):
     m = re.match(r"^(ns\d+):(.*)$", s)
     if m and ns is not None and m.group(1) in ns:
         return ns[m.group(1)] + m.group(2)
-    return NS + s
+    return (_BASE[0] if ns is None else NS) + s
 
 
 def canon_value(v, ns=None):
@@ -215,6 +218,7 @@ def case_term(codes, case, obs):
     for i, op in enumerate(case["ops"]):
         oo = obs["ops"][i] if i < len(obs.get("ops", [])) else {}
         k = op["op"]
+        _BASE[0] = op.get("ctx") or NS
         if k in ("hquery", "jsfind"):      # the lookup through POST /query {entityId} / the JS binding FindById (always merged)
             k = "get"
             if op["op"] == "jsfind":
@@ -375,6 +379,7 @@ def case_term(codes, case, obs):
                 terms.append("SRaw %s%%N %s" % (fam, ks))
         else:
             raise ValueError("op kind not handled by case_term: " + k)
+    _BASE[0] = NS
     return vlib.coq_list(["\n  " + t for t in terms])
 
 
@@ -427,6 +432,12 @@ ENGINEERED = [
     NULLPAIR,
     # two tombstones that differ in one reference target only
     TOMBPAIR,
+    # an array element changes its JSON type at the same index, same serialized length
+    ({"props": {"p1": ["12", "x"]}, "refs": {}}, {"props": {"p1": [1234, "x"]}, "refs": {}}),
+    ({"props": {"p1": ["x", "ab"]}, "refs": {}}, {"props": {"p1": ["x", True]}, "refs": {}}),
+    # a large number changes in its last digit
+    ({"props": {"p1": 1700000000123}, "refs": {}}, {"props": {"p1": 1700000000124}, "refs": {}}),
+    ({"props": {"p1": 1234.567891}, "refs": {}}, {"props": {"p1": 1234.567892}, "refs": {}}),
     # identical
     ({"props": {"p1": 22, "p3": [1, 2]}, "refs": {"r2": ["e1", "e3"]}}, {"props": {"p1": 22, "p3": [1, 2]}, "refs": {"r2": ["e1", "e3"]}}),
 ]
